@@ -36,7 +36,7 @@ DNAME = {IN: "in", OUT: "out"}
 
 NUMS = [1, 2, 3, 7, 2 ** 40]
 SETVALS = [None, 1, 2, 3, 8]
-SSEQVALS = [None, 1, 3, 8]  # store_seq_num: None = the value the fresh handle was loaded with
+SSEQVALS = [None, 1, 3]  # store_seq_num: None = the value the fresh handle was loaded with
 MAXI = 2 ** 63 - 1  # sys.maxsize: the "open end" FIXConnection passes for EndSeqNo=0
 GRID = [0, 1, 2, 3, 7, 8, 2 ** 40, MAXI]
 STR_BOUNDS = [("1", "3"), ("2", "10"), ("10", "2"), ("0", str(MAXI)), (1, "3"), ("2", 8),
@@ -750,7 +750,7 @@ def run(ctx):
                 "dedup key = reference model state + the set of (session, kind) of session creations / counter settings "
                 "made since the last successful store (possibly unsaved work); "
                 "BFS over operation sequences {open x3 sessions (T,S),(S,T),(T,S2); list; store x sessions x 2 directions x "
-                "n in {1,2,3,7,2^40} x 2 payloads; set_seq_num x sessions x {None,1,2,3,8}^2; store_seq_num x sessions x handle counters {kept,1,3,8}^2 (incl. below existing rows)} with the reference model state as "
+                "n in {1,2,3,7,2^40} x 2 payloads; set_seq_num x sessions x {None,1,2,3,8}^2; store_seq_num x sessions x handle counters {kept,1,3}^2 (incl. below existing rows)} with the reference model state as "
                 "dedup key; every (model state, op) pair up to the depth is executed on a fresh in-memory Journaler by replaying "
                 "the representative sequence; after it both loading paths, the widest range query per (session,direction), and "
                 "(full observation) all range queries on an 8x8 int bound grid + 8 digit-string/mixed pairs, 7 single lookups "
